@@ -13,7 +13,7 @@ code->spec : conformance (the transducers predict the exception class of every c
 from flow import Run, replay_file
 
 PROP = "C10"
-DST = ["md", "mdonly", "fd", "fdodd", "wrej", "eof", "eofodd", "eofcancel", "ack", "poll", "tick", "cancel", "alien"]
+DST = ["md", "mdonly", "mdwrej", "fd", "fdodd", "wrej", "eof", "eofodd", "eofcancel", "ack", "poll", "tick", "cancel", "alien"]
 SRC = ["put", "putodd", "poll", "tick", "nak", "nakodd", "ack", "fin", "cancel", "cancelwrong", "alien"]
 
 
